@@ -39,6 +39,11 @@ def carrier_case(draw, tier="quick"):
     if tc["test"] == "pressure":
         pass
     tc["junk"] = draw(st.sampled_from([0.0, 1.0, -7.5, 1000.0]))
+    t = REG()[tc["test"]]
+    if t.timed and tc["test"] != "flat_line" and "t" in tc["case"] and draw(st.integers(0, 2)) == 0:
+        # sub-second instants (multiples of 1/8 s): still the same logical times in every carrier that can hold them
+        tc["case"]["t"] = [v + draw(st.sampled_from([0.0, 0.125, 0.5, 0.875, 0.25])) for v in tc["case"]["t"]]
+        tc["subsecond"] = True
     # a few random mixed carriers on top of the systematic one-at-a-time sweep
     tc["mixed"] = [{"data": draw(st.sampled_from(DATA_KINDS)), "aux": draw(st.sampled_from(DATA_KINDS)),
                     "time": draw(st.sampled_from(carriers.TIME_CARRIERS)), "span": draw(st.sampled_from(["list", "tuple"]))}
@@ -51,7 +56,8 @@ def check_carriers(tc, rec):
     t = REG()[name]
     n = t.n(case)
     miss_ = has_missing(t, case)
-    rec.note(miss_ or t.timed, [f"test={name}"] + (["has_missing"] if miss_ else []) + (["timed"] if t.timed else []))
+    rec.note(miss_ or t.timed, [f"test={name}"] + (["has_missing"] if miss_ else []) + (["timed"] if t.timed else []) +
+             (["subsecond_times"] if tc.get("subsecond") else []))
     args, kwargs = t.build(case, CANON)
     base = flags(rec, name, rec.call(name, t.func(), *args, **kwargs), n, carrier="canonical")
     if base is SKIP:
@@ -64,12 +70,16 @@ def check_carriers(tc, rec):
     if t.aux or len(t.obs) > 1:
         for k in DATA_KINDS:
             combos.append(Carrier(data="f64", aux=k, junk=tc.get("junk", 0.0)))
+    tvals = tc["case"].get("t") or []
     if t.timed:
         for k in TIME_KINDS:
-            combos.append(Carrier(time=k))
+            if carriers.time_applicable(k, tvals):
+                combos.append(Carrier(time=k))
     combos.append(Carrier(span="tuple"))
     for m in tc.get("mixed", []):
         if name == "pressure" and m["data"] in ("list_none", "masked_nan", "masked_junk", "object"):
+            continue
+        if not carriers.time_applicable(m["time"], tvals):
             continue
         combos.append(Carrier(data=m["data"], aux=m["aux"], time=m["time"], span=m["span"], junk=tc.get("junk", 0.0)))
     for C in combos:
@@ -154,4 +164,4 @@ SUBS = [
     Sub("carriers", carrier_case, check_carriers, quick=1200, thorough=24000),
     Sub("valid_range_carriers", valid_case, check_valid, quick=800, thorough=12000),
 ]
-REQUIRED_CLASSES = ["carriers:has_missing", "carriers:timed"] + [f"carriers:test={t}" for t in NAMES]
+REQUIRED_CLASSES = ["carriers:has_missing", "carriers:timed", "carriers:subsecond_times"] + [f"carriers:test={t}" for t in NAMES]
